@@ -207,6 +207,7 @@ class SpecDef:
         self.params = params
         self.text = text
         self._ast = None
+        self.view = False
 
     @property
     def ast(self):
@@ -228,6 +229,7 @@ class ContractDB:
         self.nullable = set() # "Type.Field" pointer/interface fields that may be nil in a well-formed AST
         self.wfexclude = {}   # interface short name -> set of implementer short names never produced by the parser
         self.wfalso = {}      # struct short name -> list of extra well-formedness conditions over `self`
+        self.pkg_safety = {}  # package path -> properties the panic-freedom obligations of its functions count for
 
     def load_dir(self, root, module):
         for dirpath, dirs, files in os.walk(root):
@@ -262,16 +264,20 @@ class ContractDB:
                 self.contracts[(pkg, rest)] = cur
                 curloop = None
                 last = None
-            elif word == 'spec':
+            elif word in ('spec', 'view'):
                 m = re.match(r'^([A-Za-z_][A-Za-z0-9_]*)\s*\(([^)]*)\)\s*=\s*(.*)$', rest)
                 if not m:
                     raise ParseError('%s:%d: bad spec definition' % (path, ln))
                 params = [p.strip() for p in m.group(2).split(',') if p.strip()]
                 sd = SpecDef(m.group(1), params, m.group(3))
+                sd.view = (word == 'view')
                 self.specs[sd.name] = sd
                 last = sd
             elif word == 'nullable':
                 self.nullable.update(rest.split())
+                last = None
+            elif word == 'safetyprop':
+                self.pkg_safety.setdefault(pkg, set()).update(rest.replace(',', ' ').split())
                 last = None
             elif word == 'wfalso':
                 nm, _, ex = rest.partition(':')
@@ -349,6 +355,9 @@ class ContractDB:
 
     def get(self, pkg, short):
         return self.contracts.get((pkg, short))
+
+    def safety_props(self, pkg):
+        return tuple(sorted(self.pkg_safety.get(pkg, ())))
 
 
 def split_top(s):
